@@ -32,8 +32,7 @@ func init() {
 func newServer(bufsize int64) *service.Server {
 	n := atomic.AddInt64(&providerSeq, 1)
 	name := fmt.Sprintf("verifx%d", n)
-	sessions.Register(name, sessions.NewMemProvider())
-	topics.Register(name, topics.NewMemProvider())
+	registerProviders(name)
 	return &service.Server{ConnectTimeout: 1, SessionsProvider: name, TopicsProvider: name, Authenticator: "verifAuth", BufferSize: bufsize}
 }
 
@@ -172,4 +171,15 @@ func genConc(seed int64, n int, tier string, w *bufio.Writer) {
 		}
 		fmt.Fprintf(w, "conc run %d %d %d %d %d\n", npub, nmsg, size, r.Intn(3), 16384)
 	}
+}
+
+var registerMu sync.Mutex
+
+// registerProviders registers fresh session and topics providers under name.  The library's
+// registries are plain package-level maps (finding G4), so concurrent scenarios serialise here.
+func registerProviders(name string) {
+	registerMu.Lock()
+	defer registerMu.Unlock()
+	sessions.Register(name, sessions.NewMemProvider())
+	topics.Register(name, topics.NewMemProvider())
 }
